@@ -54,6 +54,26 @@ def metronomeOk : List BcSnap → Bool
   | [_] => true
   | a :: b :: rest => (decide (a.met = b.met) || decide (b.snap.beat = 0)) && metronomeOk (b :: rest)
 
+/-- a tempo change in the form the constructors produce (`BpmChangeSnap(bpm, metronome, Snap(m, b, metronome))`):
+the snap carries the change's own metronome, which is a positive whole number; the bpm is positive; the position
+is normalised (measure ≥ 0, 0 ≤ beat < metronome) -/
+def wfChange (c : BcSnap) : Bool :=
+  decide (c.snap.met = some c.met) && decide (c.met.den = 1) && decide (0 < c.met) && decide (0 < c.bpm)
+    && decide (0 ≤ c.snap.measure) && decide (0 ≤ c.snap.beat) && decide (c.snap.beat < c.met)
+
+def wfChanges (cs : List BcSnap) : Bool := cs.all wfChange
+
+/-- the first change sits on measure 0, beat 0 (what `from_bpm_changes_snap` demands) -/
+def firstAtZero : List BcSnap → Bool
+  | [] => false
+  | c :: _ => decide (c.snap.measure = 0) && decide (c.snap.beat = 0)
+
+/-- a query at or after the first change, with a non-negative beat (any `Snap(...)` the constructor accepts) -/
+def queryOk (cs : List BcSnap) (q : Snap) : Bool :=
+  match cs with
+  | [] => false
+  | c :: _ => c.snap.le q && decide (0 ≤ q.beat)
+
 /-- cumulative beat count of each change (constant metronome reading: `measure·M + beat` differences) -/
 def changeBeatsAux (B : Rat) (cur : BcSnap) : List BcSnap → List Rat
   | [] => [B]
